@@ -10,7 +10,7 @@ props = [json.loads(l)["id"] for l in open(os.path.join(V, "properties.jsonl")) 
 checks, na = [], []
 for pid in props:
     c = reg["checks"].get(pid)
-    if not c or c.get("disabled"):
+    if not c or c.get("disabled") or pid not in reg.get("claimed", []):
         na.append({"property_id": pid, "reason": (c or {}).get("na_reason", "check not built yet in this session (work in progress); no claim is made")})
         continue
     checks.append({
